@@ -2549,3 +2549,313 @@ Proof.
     change (s_dyad "eval_dyad_index_in_depth" (VL l) (VL (x :: r))) with (Ok (s_path (VL l) (zints (VL (x :: r))))).
     rewrite Ez in *. unfold m_index_in_depth. rewrite Hz. apply index_path_spec; [lia|exact Hp].
 Qed.
+
+(* ------------------------------------------------------------------ Group: the pairwise scan yields the classes of Match *)
+Local Open Scope list_scope.
+Lemma existsb_app' : forall {A} (f : A -> bool) a b, existsb f (a ++ b) = existsb f a || existsb f b.
+Proof. intros A f. induction a as [|x a IH]; intros b; [reflexivity|]. cbn. rewrite IH, orb_assoc. reflexivity. Qed.
+
+Lemma map_nth_seq : forall {A} (d : A) (p : list A), map (fun i => nth i p d) (seq 0 (List.length p)) = p.
+Proof.
+  intros A d p. apply (nth_ext _ _ d d); [rewrite map_length, seq_length; reflexivity|].
+  intros i Hi. rewrite map_length, seq_length in Hi.
+  rewrite (nth_indep _ d (nth 0 p d)) by (rewrite map_length, seq_length; exact Hi).
+  rewrite (map_nth (fun i => nth i p d) (seq 0 (List.length p)) 0%nat i). rewrite seq_nth by exact Hi. reflexivity.
+Qed.
+
+Lemma existsb_nth_seq : forall {A} (d : A) (f : A -> bool) (p : list A),
+  existsb (fun i => f (nth i p d)) (seq 0 (List.length p)) = existsb f p.
+Proof.
+  intros A d f p. rewrite <- (map_nth_seq d p) at 2.
+  generalize (seq 0 (List.length p)). induction l as [|i l IH]; [reflexivity|]. cbn. rewrite IH. reflexivity.
+Qed.
+
+Lemma flat_map_ext_in : forall {A B} (f g : A -> list B) l, (forall x, In x l -> f x = g x) -> flat_map f l = flat_map g l.
+Proof.
+  intros A B f g. induction l as [|x l IH]; intros H; [reflexivity|]. cbn. rewrite (H x (or_introl eq_refl)).
+  rewrite IH; [reflexivity|]. intros y Hy. apply H. right. exact Hy.
+Qed.
+Lemma existsb_ext_in : forall {A} (f g : A -> bool) l, (forall x, In x l -> f x = g x) -> existsb f l = existsb g l.
+Proof.
+  intros A f g. induction l as [|x l IH]; intros H; [reflexivity|]. cbn. rewrite (H x (or_introl eq_refl)).
+  rewrite IH; [reflexivity|]. intros y Hy. apply H. right. exact Hy.
+Qed.
+
+Section GroupProof.
+  Variable E : val -> val -> bool.
+
+  Fixpoint npos (k : val) (i : nat) (l : list val) : list nat :=
+    match l with [] => [] | x :: r => (if E x k then [i] else []) ++ npos k (S i) r end.
+
+  Lemma positions_npos : forall k l i, positions_of E k i l = map (fun j => VI (Z.of_nat j)) (npos k i l).
+  Proof.
+    intros k. induction l as [|x l IH]; intros i; [reflexivity|].
+    cbn [positions_of npos]. rewrite map_app, IH. destruct (E x k); reflexivity.
+  Qed.
+
+  Lemma npos_snoc : forall k p i x, npos k i (p ++ [x]) = npos k i p ++ (if E x k then [(i + List.length p)%nat] else []).
+  Proof.
+    intros k. induction p as [|y p IH]; intros i x.
+    - cbn. rewrite Nat.add_0_r. rewrite app_nil_r. reflexivity.
+    - cbn [app npos List.length]. rewrite IH. rewrite <- app_assoc. replace (S i + List.length p)%nat with (i + S (List.length p))%nat by lia. reflexivity.
+  Qed.
+
+  Lemma npos_nil : forall k p i, (forall y, In y p -> E y k = false) -> npos k i p = [].
+  Proof.
+    intros k. induction p as [|y p IH]; intros i H; [reflexivity|].
+    cbn [npos]. rewrite (H y (or_introl eq_refl)). cbn. apply IH. intros z Hz. apply H. right. exact Hz.
+  Qed.
+
+  Lemma firsts_snoc : forall p x, firsts E VU (p ++ [x]) = firsts E VU p ++ (if existsb (E x) p then [] else [x]).
+  Proof.
+    intros p x. unfold firsts. rewrite app_length. cbn [List.length]. rewrite Nat.add_1_r. rewrite seq_S. cbn [Nat.add].
+    rewrite flat_map_app. f_equal.
+    - apply flat_map_ext_in. intros j Hj. apply in_seq in Hj.
+      rewrite (app_nth1 p [x] VU) by lia.
+      assert (Ex : existsb (fun i => E (nth j p VU) (nth i (p ++ [x]) VU)) (seq 0 j) = existsb (fun i => E (nth j p VU) (nth i p VU)) (seq 0 j)).
+      { apply existsb_ext_in. intros i Hi. apply in_seq in Hi. rewrite (app_nth1 p [x] VU) by lia. reflexivity. }
+      rewrite Ex. reflexivity.
+    - cbn [flat_map]. rewrite app_nil_r. rewrite app_nth2 by lia. rewrite Nat.sub_diag. cbn [nth].
+      assert (Ex : existsb (fun i => E x (nth i (p ++ [x]) VU)) (seq 0 (List.length p)) = existsb (E x) p).
+      { rewrite <- (existsb_nth_seq VU (E x) p). apply existsb_ext_in. intros i Hi. apply in_seq in Hi.
+        rewrite (app_nth1 p [x] VU) by lia. reflexivity. }
+      rewrite Ex. reflexivity.
+  Qed.
+
+  Lemma firsts_incl : forall p k, In k (firsts E VU p) -> In k p.
+  Proof.
+    intros p k H. unfold firsts in H. apply in_flat_map in H. destruct H as [j [Hj Hk]]. apply in_seq in Hj.
+    destruct (existsb _ _); [destruct Hk|]. destruct Hk as [<-|[]]. apply nth_In. lia.
+  Qed.
+
+  (* the members the scan will meet, on which Match is an equivalence and the comparison function computes E *)
+  Variable M : val -> Prop.
+  Variable eq : val -> val -> result bool.
+  Hypothesis Heq : forall k x, M k -> M x -> eq k x = Ok (E k x).
+  Hypothesis Hrefl : forall x, M x -> E x x = true.
+  Hypothesis Hsym : forall x y, M x -> M y -> E x y = true -> E y x = true.
+  Hypothesis Htrans : forall x y z, M x -> M y -> M z -> E x y = true -> E y z = true -> E x z = true.
+
+  Lemma sym_false : forall x y, M x -> M y -> E x y = false -> E y x = false.
+  Proof. intros x y Mx My H. destruct (E y x) eqn:F; [|reflexivity]. rewrite (Hsym y x My Mx F) in H. discriminate. Qed.
+
+  (* keys no two of which match *)
+  Fixpoint sep (keys : list val) : Prop :=
+    match keys with [] => True | k :: r => (forall k', In k' r -> E k k' = false) /\ sep r end.
+
+  Lemma ginsert_spec : forall x i, M x -> forall keys (f : val -> list nat),
+    (forall k, In k keys -> M k) -> sep keys ->
+    ginsert eq x i (map (fun k => (k, f k)) keys) =
+    Ok (map (fun k => (k, f k ++ if E x k then [i] else [])) keys ++ (if existsb (E x) keys then [] else [(x, [i])])).
+  Proof.
+    intros x i Mx. induction keys as [|k r IH]; intros f HM Hs; [reflexivity|].
+    cbn [map ginsert]. cbn [sep] in Hs. destruct Hs as [Hk Hr].
+    assert (Mk : M k) by (apply HM; left; reflexivity).
+    rewrite (Heq k x Mk Mx). cbn [bind existsb].
+    destruct (E k x) eqn:Ekx.
+    - rewrite (Hsym k x Mk Mx Ekx). cbn [orb]. rewrite app_nil_r. f_equal. f_equal.
+      apply map_ext_in. intros k' Hk'. assert (Mk' : M k') by (apply HM; right; exact Hk').
+      destruct (E x k') eqn:Exk'; [|rewrite app_nil_r; reflexivity].
+      specialize (Hk k' Hk'). rewrite (Htrans k x k' Mk Mx Mk' Ekx Exk') in Hk. discriminate.
+    - rewrite (sym_false k x Mk Mx Ekx). cbn [orb]. rewrite app_nil_r.
+      rewrite (IH f (fun k' Hk' => HM k' (or_intror Hk')) Hr). cbn [bind app]. reflexivity.
+  Qed.
+
+  Definition G (p : list val) : list (val * list nat) := map (fun k => (k, npos k 0 p)) (firsts E VU p).
+  Definition covered (p : list val) : Prop := forall y, In y p -> exists k, In k (firsts E VU p) /\ E y k = true.
+
+  Lemma sep_snoc : forall keys x, sep keys -> (forall k, In k keys -> E k x = false) -> sep (keys ++ [x]).
+  Proof.
+    induction keys as [|k r IH]; intros x Hs Hx; [cbn; split; [intros k' []|exact I]|].
+    cbn [sep] in Hs. destruct Hs as [Hk Hr]. cbn [app sep]. split.
+    - intros k' Hk'. apply in_app_or in Hk'. destruct Hk' as [Hk'|[<-|[]]]; [apply Hk; exact Hk'|apply Hx; left; reflexivity].
+    - apply IH; [exact Hr|]. intros k' Hk'. apply Hx. right. exact Hk'.
+  Qed.
+
+  Lemma gscan_spec : forall r p,
+    (forall y, In y (p ++ r) -> M y) -> sep (firsts E VU p) -> covered p ->
+    gscan eq (List.length p) r (G p) = Ok (G (p ++ r)).
+  Proof.
+    induction r as [|x r IH]; intros p HM Hs Hc.
+    - cbn [gscan]. rewrite app_nil_r. reflexivity.
+    - assert (Mx : M x) by (apply HM; apply in_or_app; right; left; reflexivity).
+      assert (Mp : forall y, In y p -> M y) by (intros y Hy; apply HM; apply in_or_app; left; exact Hy).
+      assert (Mk : forall k, In k (firsts E VU p) -> M k) by (intros k Hk; apply Mp; apply firsts_incl; exact Hk).
+      cbn [gscan]. unfold G at 1. rewrite (ginsert_spec x (List.length p) Mx (firsts E VU p) (fun k => npos k 0 p) Mk Hs).
+      cbn [bind].
+      (* a key matches x iff a member matches x *)
+      assert (Hex : existsb (E x) (firsts E VU p) = existsb (E x) p).
+      { destruct (existsb (E x) p) eqn:Ep.
+        - apply existsb_exists in Ep. destruct Ep as [y [Hy Exy]]. destruct (Hc y Hy) as [k [Hk Eyk]].
+          apply existsb_exists. exists k. split; [exact Hk|]. exact (Htrans x y k Mx (Mp y Hy) (Mk k Hk) Exy Eyk).
+        - destruct (existsb (E x) (firsts E VU p)) eqn:Ef; [|reflexivity].
+          apply existsb_exists in Ef. destruct Ef as [k [Hk Exk]].
+          assert (X : existsb (E x) p = true) by (apply existsb_exists; exists k; split; [apply firsts_incl; exact Hk|exact Exk]).
+          rewrite X in Ep. discriminate. }
+      assert (Hstep : map (fun k => (k, npos k 0 p ++ (if E x k then [List.length p] else []))) (firsts E VU p) ++
+                      (if existsb (E x) (firsts E VU p) then [] else [(x, [List.length p])]) = G (p ++ [x])).
+      { unfold G. rewrite firsts_snoc. rewrite map_app. rewrite Hex. f_equal.
+        - apply map_ext. intros k. rewrite npos_snoc. reflexivity.
+        - destruct (existsb (E x) p) eqn:Ep; [reflexivity|]. cbn [map]. rewrite npos_snoc. rewrite (Hrefl x Mx).
+          rewrite npos_nil; [reflexivity|].
+          intros y Hy. destruct (E y x) eqn:Eyx; [|reflexivity].
+          assert (X : existsb (E x) p = true) by (apply existsb_exists; exists y; split; [exact Hy|exact (Hsym y x (Mp y Hy) Mx Eyx)]).
+          rewrite X in Ep. discriminate. }
+      rewrite Hstep.
+      replace (S (List.length p)) with (List.length (p ++ [x])) by (rewrite app_length; cbn; lia).
+      replace (p ++ x :: r) with ((p ++ [x]) ++ r) by (rewrite <- app_assoc; reflexivity).
+      apply IH.
+      + intros y Hy. apply HM. rewrite <- app_assoc in Hy. exact Hy.
+      + rewrite firsts_snoc. destruct (existsb (E x) p) eqn:Ep; [rewrite app_nil_r; exact Hs|].
+        apply sep_snoc; [exact Hs|]. intros k Hk. apply (sym_false x k Mx (Mk k Hk)).
+        destruct (E x k) eqn:Exk; [|reflexivity].
+        assert (X : existsb (E x) (firsts E VU p) = true) by (apply existsb_exists; exists k; split; assumption).
+        rewrite X in Hex. discriminate.
+      + intros y Hy. rewrite firsts_snoc. apply in_app_or in Hy. destruct Hy as [Hy|[<-|[]]].
+        * destruct (Hc y Hy) as [k [Hk Eyk]]. exists k. split; [apply in_or_app; left; exact Hk|exact Eyk].
+        * destruct (existsb (E x) p) eqn:Ep.
+          -- apply existsb_exists in Hex. destruct Hex as [k [Hk Exk]].
+             exists k. split; [apply in_or_app; left; exact Hk|exact Exk].
+          -- exists x. split; [apply in_or_app; right; left; reflexivity|apply Hrefl; exact Mx].
+  Qed.
+
+  Lemma groups_val_G : forall l, groups_val (G l) = VL (map (fun k => VL (positions_of E k 0 l)) (firsts E VU l)).
+  Proof.
+    intros l. unfold groups_val, G. rewrite map_map. f_equal. apply map_ext. intros k. cbn [snd]. rewrite positions_npos. reflexivity.
+  Qed.
+
+  Theorem gscan_groups : forall l, (forall y, In y l -> M y) ->
+    bind (gscan eq 0 l []) (fun gs => Ok (groups_val gs)) = Ok (VL (map (fun k => VL (positions_of E k 0 l)) (firsts E VU l))).
+  Proof.
+    intros l HM. change (@nil (val * list nat)) with (G []). change O with (List.length (@nil val)).
+    rewrite (gscan_spec l []); [cbn [bind app]; rewrite groups_val_G; reflexivity|exact HM|exact I|intros y []].
+  Qed.
+End GroupProof.
+
+Lemma positions_of_ext_in : forall (e e' : val -> val -> bool) k l i,
+  (forall x, In x l -> e x k = e' x k) -> positions_of e k i l = positions_of e' k i l.
+Proof.
+  intros e e' k. induction l as [|x l IH]; intros i H; [reflexivity|].
+  cbn [positions_of]. rewrite (H x (or_introl eq_refl)). rewrite (IH (S i)); [reflexivity|]. intros y Hy. apply H. right. exact Hy.
+Qed.
+
+Lemma firsts_ext_in : forall (e e' : val -> val -> bool) l,
+  (forall x y, In x l -> In y l -> e x y = e' x y) -> firsts e VU l = firsts e' VU l.
+Proof.
+  intros e e' l H. unfold firsts. apply flat_map_ext_in. intros j Hj. apply in_seq in Hj.
+  assert (X : existsb (fun i => e (nth j l VU) (nth i l VU)) (seq 0 j) = existsb (fun i => e' (nth j l VU) (nth i l VU)) (seq 0 j)).
+  { apply existsb_ext_in. intros i Hi. apply in_seq in Hi. apply H; apply nth_In; lia. }
+  rewrite X. reflexivity.
+Qed.
+
+Lemma eqv_on_spec : forall e l, eqv_on e l = true ->
+  (forall x, In x l -> e x x = true) /\
+  (forall x y, In x l -> In y l -> e x y = true -> e y x = true) /\
+  (forall x y z, In x l -> In y l -> In z l -> e x y = true -> e y z = true -> e x z = true).
+Proof.
+  intros e l H. unfold eqv_on in H. rewrite forallb_forall in H. repeat split.
+  - intros x Hx. specialize (H x Hx). apply andb_true_iff in H. exact (proj1 H).
+  - intros x y Hx Hy Exy. specialize (H x Hx). apply andb_true_iff in H. destruct H as [_ H]. rewrite forallb_forall in H.
+    specialize (H y Hy). apply andb_true_iff in H. destruct H as [H _]. rewrite Exy in H. exact H.
+  - intros x y z Hx Hy Hz Exy Eyz. specialize (H x Hx). apply andb_true_iff in H. destruct H as [_ H]. rewrite forallb_forall in H.
+    specialize (H y Hy). apply andb_true_iff in H. destruct H as [_ H]. rewrite forallb_forall in H.
+    specialize (H z Hz). rewrite Exy, Eyz in H. exact H.
+Qed.
+
+Local Open Scope string_scope.
+Local Open Scope Z_scope.
+
+(* Group: one group per class of Match, in order of first appearance, each listing the positions of its members *)
+Lemma group_holds : kg_equal_ints_exact = true -> kg_equal_no_shape_exit = true ->
+  forall a, canonical a = true -> dom_monad "eval_monad_groupby" a = true ->
+  m_monad "eval_monad_groupby" a = s_monad "eval_monad_groupby" a.
+Proof.
+  intros Hi Hs a Hc Hd. unfold m_monad. rewrite Hc. cbn [negb].
+  change (m_group a = s_monad "eval_monad_groupby" a).
+  destruct a as [z|r|c|s|s|l|]; try discriminate Hd.
+  - destruct s; reflexivity.
+  - change (s_monad "eval_monad_groupby" (VL l)) with (Ok (s_group s_same VU l)).
+    change (dom_monad "eval_monad_groupby" (VL l)) with
+      (forallb (fun x => forallb (fun y => match_kinds_ok x y && negb (k_close x y)) l) l && eqv_on s_same l) in Hd.
+    apply andb_true_iff in Hd. destruct Hd as [Hp Hq]. rewrite forallb_forall in Hp.
+    destruct (eqv_on_spec _ _ Hq) as [Hr [Hsy Htr]].
+    destruct l as [|x0 l0]; [reflexivity|]. set (l := x0 :: l0) in *.
+    unfold m_group. fold l.
+    assert (Scan : bind (gscan (fun k x => kg_equal (fuel2 k x) k x) 0 l []) (fun gs => Ok (groups_val gs)) = Ok (s_group s_same VU l)).
+    { unfold s_group. apply (gscan_groups s_same (fun y => In y l)); try assumption.
+      - intros k x Hk Hx. specialize (Hp k Hk). rewrite forallb_forall in Hp. specialize (Hp x Hx).
+        apply andb_true_iff in Hp. destruct Hp as [Hm Hkc]. apply negb_true_iff in Hkc.
+        unfold kg_equal. rewrite Hs. cbn [negb].
+        apply (kg_equal_rep_spec Hi); try assumption; try apply canon_rep_valid. apply fuel2_enough.
+      - intros y Hy. exact Hy. }
+    destruct (rshape (VL l)) as [[|d [|d' sh]]|] eqn:R; try exact Scan.
+    (* numeric vector: np.unique with exact equality = Match on numbers *)
+    destruct (rshape_list _ _ R) as [s0 [Es F]]. inversion Es. subst s0. rewrite Forall_forall in F.
+    assert (Num : forall x y, In x l -> In y l -> num_eqb x y = s_same x y).
+    { intros x y Hx Hy. pose proof (rshape_nil_atom _ (F x Hx)) as Nx. pose proof (rshape_nil_atom _ (F y Hy)) as Ny.
+      destruct x; try discriminate Nx; destruct y; try discriminate Ny; reflexivity. }
+    change (Ok (VL (map (fun k => VL (positions_of num_eqb k 0 l)) (firsts num_eqb VU l))) = Ok (s_group s_same VU l)).
+    unfold s_group. rewrite (firsts_ext_in num_eqb s_same l Num). f_equal. f_equal.
+    apply map_ext_in. intros k Hk. f_equal. apply positions_of_ext_in. intros x Hx. apply Num; [exact Hx|].
+    apply (firsts_incl s_same). exact Hk.
+Qed.
+
+(* ------------------------------------------------------------------ the groups partition the positions *)
+Local Open Scope list_scope.
+Section GroupPartition.
+  Variable E : val -> val -> bool.
+
+  Lemma npos_in : forall k l i j, In j (npos E k i l) <-> (i <= j < i + List.length l)%nat /\ E (nth (j - i) l VU) k = true.
+  Proof.
+    intros k. induction l as [|x l IH]; intros i j.
+    - cbn. split; [intros []|intros [H _]; lia].
+    - cbn [npos List.length]. rewrite in_app_iff. rewrite IH. split.
+      + intros [H|[H1 H2]].
+        * destruct (E x k) eqn:Ex; [|destruct H]. destruct H as [<-|[]]. rewrite Nat.sub_diag. split; [lia|exact Ex].
+        * split; [lia|]. replace (j - i)%nat with (S (j - S i)) by lia. exact H2.
+      + intros [H1 H2]. destruct (Nat.eq_dec j i) as [->|Hne].
+        * left. rewrite Nat.sub_diag in H2. cbn in H2. rewrite H2. left. reflexivity.
+        * right. split; [lia|]. replace (j - i)%nat with (S (j - S i)) in H2 by lia. exact H2.
+  Qed.
+
+  Theorem groups_partition : forall l,
+    (forall x, In x l -> E x x = true) ->
+    (forall x y, In x l -> In y l -> E x y = true -> E y x = true) ->
+    (forall x y z, In x l -> In y l -> In z l -> E x y = true -> E y z = true -> E x z = true) ->
+    (* every position lies in the group of some key *)
+    (forall j, (j < List.length l)%nat -> exists k, In k (firsts E VU l) /\ In j (npos E k 0 l)) /\
+    (* distinct keys never match: with transitivity, no position lies in the groups of two keys *)
+    sep E (firsts E VU l).
+  Proof.
+    induction l as [|x p IH] using rev_ind; intros Hr Hs Ht.
+    - split; [intros j Hj; cbn in Hj; lia|exact I].
+    - assert (Hin : forall y, In y p -> In y (p ++ [x])) by (intros; apply in_or_app; left; assumption).
+      assert (Hx : In x (p ++ [x])) by (apply in_or_app; right; left; reflexivity).
+      destruct (IH (fun y Hy => Hr y (Hin y Hy)) (fun a b Ha Hb => Hs a b (Hin a Ha) (Hin b Hb))
+                   (fun a b c Ha Hb Hc => Ht a b c (Hin a Ha) (Hin b Hb) (Hin c Hc))) as [Hcov Hsep].
+      assert (Hk : forall k, In k (firsts E VU p) -> In k (p ++ [x])) by (intros k Hk; apply Hin; apply firsts_incl with (E := E); exact Hk).
+      rewrite firsts_snoc. split.
+      + intros j Hj. rewrite app_length in Hj. cbn in Hj.
+        destruct (Nat.eq_dec j (List.length p)) as [->|Hne].
+        * (* the new member *)
+          destruct (existsb (E x) p) eqn:Ep.
+          -- apply existsb_exists in Ep. destruct Ep as [y [Hy Exy]].
+             destruct (In_nth _ _ VU Hy) as [n [Hn Hnth]].
+             destruct (Hcov n Hn) as [k [Hkf Hkn]]. apply npos_in in Hkn. destruct Hkn as [_ Hkn]. rewrite Nat.sub_0_r, Hnth in Hkn.
+             exists k. split; [apply in_or_app; left; exact Hkf|].
+             apply npos_in. split; [rewrite app_length; cbn; lia|]. rewrite Nat.sub_0_r. rewrite app_nth2 by lia. rewrite Nat.sub_diag. cbn [nth].
+             exact (Ht x y k Hx (Hin y Hy) (Hk k Hkf) Exy Hkn).
+          -- exists x. split; [apply in_or_app; right; left; reflexivity|].
+             apply npos_in. split; [rewrite app_length; cbn; lia|]. rewrite Nat.sub_0_r. rewrite app_nth2 by lia. rewrite Nat.sub_diag. cbn [nth].
+             apply Hr. exact Hx.
+        * destruct (Hcov j ltac:(lia)) as [k [Hkf Hkn]]. exists k. split; [apply in_or_app; left; exact Hkf|].
+          apply npos_in in Hkn. destruct Hkn as [_ Hkn]. apply npos_in. split; [rewrite app_length; cbn; lia|].
+          rewrite Nat.sub_0_r in *. rewrite app_nth1 by lia. exact Hkn.
+      + destruct (existsb (E x) p) eqn:Ep; [rewrite app_nil_r; exact Hsep|].
+        apply sep_snoc; [exact Hsep|]. intros k Hkf.
+        destruct (E k x) eqn:Ekx; [|reflexivity].
+        assert (X : existsb (E x) p = true).
+        { apply existsb_exists. exists k. split; [apply firsts_incl with (E := E); exact Hkf|]. exact (Hs k x (Hk k Hkf) Hx Ekx). }
+        rewrite X in Ep. discriminate.
+  Qed.
+End GroupPartition.
